@@ -40,10 +40,12 @@ def generate(seed: int, tier: str):
     if picker == "zncc":
         shape = [rng.randint(40, 56) for _ in range(3)]
         tb = rng.choice([7, 8, 9])
-        R = tb  # exclusion / spacing unit
+        # non-cubic templates: the first axis may be shorter or longer than the (square) other two
+        tz = rng.choice([tb, tb, tb - 2, tb + 4, 5])
+        R = max(tb, tz)  # exclusion / spacing unit
         n = rng.randint(2, 5)
-        min_sep = 2.2 * tb
-        margin = tb + 2
+        min_sep = 2.2 * max(tb, tz)
+        margin = max(tb, tz) + 2
     else:
         shape = [rng.randint(36, 60) for _ in range(3)]
         R = rng.choice([3.0, 4.0])
@@ -51,6 +53,7 @@ def generate(seed: int, tier: str):
         min_sep = 4 * R + 6
         margin = int(2 * R + 3)
         tb = None
+        tz = None
         thin = rng.random() < 0.2
         if thin:
             # one axis thinner than the nominal overlap depth (which is then clamped on that axis only)
@@ -71,7 +74,7 @@ def generate(seed: int, tier: str):
             ch, style = W.gen_chunks(rng, shape, style=style)
         layouts.append({"kind": kind, "chunks": ch, "style": style})
     thin = bool(picker != "zncc" and min(shape) < 20)
-    return {"property": PROPERTY, "seed": seed, "thin": thin, "picker": picker, "shape": shape, "scale": scale, "R": R, "n": n, "min_sep": min_sep, "margin": margin, "tb": tb,
+    return {"property": PROPERTY, "seed": seed, "thin": thin, "picker": picker, "shape": shape, "scale": scale, "R": R, "n": n, "min_sep": min_sep, "margin": margin, "tb": tb, "tz": tz,
             "dtype": rng.choice(["float32", "float32", "float64", "int16", "uint8", "bool"]) if picker != "zncc" else rng.choice(["float32", "float64", "uint16", "float32"]),
             # detector counts: a background level far above the contrast (all pickers are offset invariant on paper)
             # (template matching only: LoG/DoG threshold at exactly 0, so on a non-zero background float rounding noise of the
@@ -89,10 +92,13 @@ def hann(shape, c, R, amp=1.0):
     return amp * 0.5 * (1 + np.cos(np.pi * np.minimum(r, R) / R)) * (r < R)
 
 
-def make_template(tb, seed):
-    """Asymmetric compact template: three blobs of different size on an L."""
+def make_template(tb, seed, tz=None):
+    """Asymmetric compact template: three blobs of different size on an L (in the plane of the last two axes)."""
+    tz = tz or tb
     c = (tb - 1) / 2
-    t = hann((tb, tb, tb), (c, c, c), 2.6, 1.0) + hann((tb, tb, tb), (c, c - 2.0, c + 2.2), 1.9, 0.9) + hann((tb, tb, tb), (c, c + 2.4, c), 1.6, 0.7)
+    cz = (tz - 1) / 2
+    shp = (tz, tb, tb)
+    t = hann(shp, (cz, c, c), 2.6, 1.0) + hann(shp, (cz, c - 2.0, c + 2.2), 1.9, 0.9) + hann(shp, (cz, c + 2.4, c), 1.6, 0.7)
     return t.astype(np.float32)
 
 
@@ -126,21 +132,17 @@ def build_image(sc):
     img = np.zeros(shape, dtype=np.float64)
     rots = []
     if sc["picker"] == "zncc":
-        tmpl = make_template(sc["tb"], sc["data_seed"])
-        tb = sc["tb"]
-        h = (tb - 1) // 2
+        tmpl = make_template(sc["tb"], sc["data_seed"], sc.get("tz"))
+        ts = np.array(tmpl.shape)
         kept = []
         for p in pts:
             k = int(rg.integers(0, 4)) if sc["rot_set"] == "z90" else 0
             t = np.rot90(tmpl, k=k, axes=(1, 2))
-            z0 = (p - (tb - 1) / 2)
-            if tb % 2 == 0:
-                z0 = p - tb / 2 + 0.5  # particle centre at p + 0.0: even templates sit between voxels; keep integer corner
-            z0 = np.round(z0).astype(int)
-            if (z0 < 0).any() or (z0 + tb > np.array(shape)).any():
+            z0 = np.round(p - (ts - 1) / 2 + np.where(ts % 2 == 0, 0.5, 0.0) - np.where(ts % 2 == 0, 0.5, 0.0)).astype(int)
+            if (z0 < 0).any() or (z0 + ts > np.array(shape)).any():
                 continue
-            img[z0[0]:z0[0] + tb, z0[1]:z0[1] + tb, z0[2]:z0[2] + tb] += t
-            kept.append(z0 + (tb - 1) / 2)
+            img[z0[0]:z0[0] + ts[0], z0[1]:z0[1] + ts[1], z0[2]:z0[2] + ts[2]] += t
+            kept.append(z0 + (ts - 1) / 2)
             rots.append(k)
         pts = kept
     else:
@@ -176,7 +178,7 @@ def make_picker(sc, tmpl):
         rot = [Rotation.from_rotvec([np.deg2rad(a), 0, 0]) for a in (0, 90, 180, 270)]
     else:
         rot = None
-    return pick.ZNCCTemplateMatcher(tmpl, rotation=rot, order=1), {"min_distance": sc["tb"] * 0.8 * s, "min_score": sc["min_score"]}
+    return pick.ZNCCTemplateMatcher(tmpl, rotation=rot, order=1), {"min_distance": max(tmpl.shape) * 0.8 * s, "min_score": sc["min_score"]}
 
 
 def check_picks(sc, pos, pts, layout, site):
@@ -295,7 +297,7 @@ def check_rotations(sc, img, mol, tmpl, li):
     import dask
     from acryo import SubtomogramLoader
 
-    if sc["tb"] % 2 == 0:
+    if any(x % 2 == 0 for x in tmpl.shape):
         return  # even templates sit between voxels: interpolation blurs the comparison
     ld = SubtomogramLoader(img.astype(np.float32), mol, order=1, scale=sc["scale"], output_shape=tmpl.shape)
     with dask.config.set({"scheduler": Sim(mode="sequential").get}):
